@@ -233,10 +233,7 @@ impl Band {
     }
 
     pub async fn is_closed(&self) -> Result<bool> {
-        self.transport
-            .is_file(BAND_TAIL_FILENAME)
-            .await
-            .map_err(Error::from)
+        tail_is_complete(&self.transport, BAND_TAIL_FILENAME).await
     }
 
     pub fn id(&self) -> BandId {
@@ -264,7 +261,12 @@ impl Band {
 
     /// Return info about the state of this band.
     pub async fn get_info(&self) -> Result<Info> {
-        let tail_option: Option<Tail> = read_json(&self.transport, BAND_TAIL_FILENAME).await?;
+        let tail_option: Option<Tail> = match read_json(&self.transport, BAND_TAIL_FILENAME).await {
+            Ok(tail_option) => tail_option,
+            // A zero-length tail is left by a backup killed while writing it: not finished.
+            Err(_) if !self.is_closed().await? => None,
+            Err(err) => return Err(err.into()),
+        };
         let start_time =
             Timestamp::from_second(self.head.start_time).map_err(|_| Error::InvalidMetadata {
                 details: format!("Invalid band start timestamp {:?}", self.head.start_time),
@@ -300,6 +302,16 @@ impl Band {
             }
         }
         Ok(())
+    }
+}
+
+/// True if the band tail at this path exists and is not the zero-length file that a backup
+/// killed while writing the tail leaves behind: such a band was never finished.
+pub(crate) async fn tail_is_complete(transport: &Transport, path: &str) -> Result<bool> {
+    match transport.metadata(path).await {
+        Ok(metadata) => Ok(metadata.kind == Kind::File && metadata.len > 0),
+        Err(err) if err.is_not_found() => Ok(false),
+        Err(err) => Err(err.into()),
     }
 }
 
